@@ -580,7 +580,7 @@ func runC14Hash(args []string) error {
 		var p1, p2 []byte
 		shape := ""
 		rb := func(n int) []byte { b := make([]byte, n); rng.Read(b); return b }
-		switch rng.Intn(8) {
+		switch rng.Intn(11) {
 		case 0: // equal up to the limit, different tails
 			shape = "same-prefix/different-tails"
 			pre := rb(eff)
@@ -614,6 +614,31 @@ func runC14Hash(args []string) error {
 			shape = "short/empty"
 			p1 = rb(rng.Intn(4))
 			p2 = rb(rng.Intn(4))
+		case 7: // adversarial: the other payload IS the raw digest of this one's prefix at the read limit
+			shape = "digest-of-prefix-as-payload"
+			p1 = rb(eff - 2 + rng.Intn(40))
+			n := len(p1)
+			if n > eff {
+				n = eff
+			}
+			p2 = c14Digest(kind, p1[:n])
+		case 8: // adversarial: the other payload is the raw digest of the whole payload / of a short one
+			shape = "digest-of-whole-as-payload"
+			if rng.Intn(2) == 0 {
+				p1 = rb(33 + rng.Intn(eff))
+			} else {
+				p1 = rb(rng.Intn(40))
+			}
+			p2 = c14Digest(kind, p1)
+		case 9: // adversarial: the other payload is the key the hasher under test itself returned
+			shape = "own-key-as-payload"
+			p1 = rb(5 + rng.Intn(eff+8))
+			k, _ := c14Hasher(kind, limit)(message.NewMessage("u0", p1))
+			p2 = []byte(k)
+			if rng.Intn(3) == 0 { // and once more: the key of the key
+				k2, _ := c14Hasher(kind, limit)(message.NewMessage("u0", p2))
+				p1, p2 = p2, []byte(k2)
+			}
 		default: // identical contents, distinct messages; lengths around the boundary
 			shape = "identical"
 			p1 = rb(eff - 1 + rng.Intn(3))
